@@ -13,6 +13,10 @@ os.environ.setdefault("PYTHONHASHSEED", "0")
 
 EVIDENCE_DIR = os.path.join(VERIF, "evidence")
 REPLAY_DIR = os.path.join(VERIF, "replays")
+if os.path.realpath(REPO) != "/repo":
+    # a scratch copy / mutant is under test: keep its evidence and replays out of /verif
+    EVIDENCE_DIR = os.path.join(os.environ.get("VERIF_SCRATCH_OUT", "/tmp/verif-mutant-out"), "evidence")
+    REPLAY_DIR = os.path.join(os.environ.get("VERIF_SCRATCH_OUT", "/tmp/verif-mutant-out"), "replays")
 FINDINGS_FILE = os.path.join(VERIF, "known_findings.json")
 
 
